@@ -520,9 +520,147 @@ def gen_mapped(rng, tier):
     return cases
 
 
+DEEP_KINDS = FLAT_KINDS + ["struct"]
+HASHABLE_BAD = [None, 0, -3, "", "a", True, 7]
+
+
+def container_depth(d):
+    """nesting depth of collection declarations (a scalar / class reference is 0)"""
+    subs = ([d["item"]] if isinstance(d.get("item"), dict) else []) + list(d.get("items", [])) + \
+           [d[k] for k in ("key", "val") if isinstance(d.get(k), dict)]
+    if d["k"] in COLLECTION_KINDS:
+        return 1 + max([container_depth(x) for x in subs] or [0])
+    return 0
+
+
+def corrupt_along(rng, vg, d, w, mode, hashable=False, depth=0):
+    """walk the value `w` along its declaration `d` down to ONE position and make it invalid there:
+    a boundary neighbour of the declaration at that position, a payload text, another type.  In
+    `construct` mode a class-reference position is replaced as a whole (its instance is built - and
+    validated - before the outer constructor runs); in `deser` mode the walk continues inside it.
+    Returns the new wire value."""
+    k = d["k"]
+
+    def leaf():
+        r = rng.random()
+        b = vg.boundary(d) if k not in ("struct",) else []
+        if b and r < 0.45:
+            return rng.choice(b)
+        if r < 0.7:
+            return rng.choice(PAYLOADS)
+        pool = list(HASHABLE_BAD) + ([] if hashable else [{"l": []}, {"l": [1, 2]}, {"m": []}, {"m": [["a", 1]]}])
+        return rng.choice(pool)
+
+    if not isinstance(w, dict) or depth > 6 or rng.random() < 0.12:
+        return leaf()
+    if k in ("seqOf", "tupleOf", "setOf"):
+        tag = next((t for t in ("l", "q", "t", "s", "fs") if t in w), None)
+        if tag is None:
+            return leaf()
+        xs = list(w[tag])
+        if not xs:
+            x0 = vg.valid(d["item"])
+            if x0 is gen.NOVALUE:
+                return leaf()
+            xs = [x0]
+        i = rng.randrange(len(xs))
+        xs[i] = corrupt_along(rng, vg, d["item"], xs[i], mode, hashable or k == "setOf", depth + 1)
+        return {tag: xs}
+    if k in ("seqPos", "tuplePos"):
+        tag = next((t for t in ("l", "q", "t") if t in w), None)
+        if tag is None or not w[tag]:
+            return leaf()
+        xs = list(w[tag])
+        i = rng.randrange(min(len(xs), len(d["items"])))
+        xs[i] = corrupt_along(rng, vg, d["items"][i], xs[i], mode, hashable, depth + 1)
+        return {tag: xs}
+    if k == "mapOf" and "m" in w:
+        kvs = [list(kv) for kv in w["m"]]
+        if not kvs:
+            k0, v0 = vg.valid(d["key"]), vg.valid(d["val"])
+            if k0 is gen.NOVALUE or v0 is gen.NOVALUE:
+                return leaf()
+            kvs = [[k0, v0]]
+        i = rng.randrange(len(kvs))
+        if rng.random() < 0.3:
+            kvs[i][0] = corrupt_along(rng, vg, d["key"], kvs[i][0], mode, True, depth + 1)
+        else:
+            kvs[i][1] = corrupt_along(rng, vg, d["val"], kvs[i][1], mode, hashable, depth + 1)
+        return {"m": kvs}
+    if k == "struct" and "o" in w and mode != "construct" and w["o"][1]:
+        kw = [list(kv) for kv in w["o"][1]]
+        fields = dict((n, f) for n, f in d["fields"])
+        idx = [i for i, kv in enumerate(kw) if kv[0] in fields]
+        if idx:
+            i = rng.choice(idx)
+            kw[i][1] = corrupt_along(rng, vg, fields[kw[i][0]], kw[i][1], mode, hashable, depth + 1)
+            return {"o": [w["o"][0], kw]}
+    return leaf()
+
+
+def gen_deep(rng, tier, n_classes):
+    """directed stream for the path model: classes whose fields are collections nested 2..3 levels deep
+    (Array / Deque / Tuple / Set / Map, homogeneous and positional, in every combination the type-directed
+    generator produces) over scalars and class references; a valid argument set, then ONE position at a
+    random depth of one or two fields made invalid (boundary neighbour of the declaration AT that position,
+    payload text, other type, wrong container); through the constructor, fail-fast on/off.
+    Region: the suffix chain `_<i>` / `_key` / `_value` per nesting level that names the rejecting position."""
+    cases = []
+    made = 0
+    tries = 0
+    while made < n_classes and tries < n_classes * 30:
+        tries += 1
+        dg = gen.DeclGen(rng, max_depth=3, allow=DEEP_KINDS, p_constraint=0.45)
+        vg = gen.ValGen(rng)
+        fields = []
+        for nm in rng.sample(["aa", "b_1", "deep", "m2", "tt"], rng.randint(1, 3)):
+            want_struct = rng.random() < 0.3
+            for _ in range(30):
+                # a collection nested >= 2 levels, or a (top-level) class reference
+                fd = dg.class_decl(1, n_fields=rng.randint(1, 3)) if want_struct else dg.decl(0)
+                if (want_struct or container_depth(fd) >= 2) and '"inline"' not in json.dumps(fd):
+                    fields.append([nm, fd])
+                    break
+        if not fields:
+            continue
+        cls = {"k": "struct", "name": f"P{made}", "required": sorted(n for n, _ in fields if rng.random() < 0.4),
+               "addl": rng.random() < 0.5, "fields": fields}
+        C.fix_accepts(cls)
+        base = {}
+        for nm, fd in fields:
+            v = vg.valid(fd)
+            if v is gen.NOVALUE:
+                cls["required"] = [r for r in cls["required"] if r != nm]
+            else:
+                base[nm] = v
+        if not base:
+            continue
+        made += 1
+        names = list(base)
+        decl_of = dict(fields)
+        subs_ = [[x] for x in names] + ([rng.sample(names, 2)] if len(names) > 1 else [])
+        for sub in subs_:
+            for _ in range(2 if tier == "quick" else 4):
+                for mode in ("construct", "deser"):
+                    kw = dict(base)
+                    for nm in sub:
+                        kw[nm] = corrupt_along(rng, vg, decl_of[nm], base[nm], mode)
+                    kwl = [[k, v] for k, v in kw.items()]
+                    rng.shuffle(kwl)
+                    entry = rng.choice(["Deserializer", "deserialize_structure"])
+                    for ff in (True, False):
+                        cases.append({"suite": "errors", "cls": cls, "kw": kwl, "mode": mode, "ff": ff,
+                                      "entry": entry, "sub": sub, "ways": ["deep:" + mode],
+                                      "re": gen.re_table(cls, kwl, [[k, v] for k, v in base.items()])})
+    return cases
+
+
 def gen_cases(rng, tier):
     n = 160 if tier == "quick" else 1400
-    return fixed_cases() + gen_directed(rng, tier) + gen_shared(rng, tier) + gen_mapped(rng, tier) + gen_flat(rng, tier, n) + gen_nested(rng, tier, 60 if tier == "quick" else 500)
+    # the deep stream draws from its own generator seeded from the case stream's rng state AFTER the
+    # older streams, so that their cases stay what they were
+    out = fixed_cases() + gen_directed(rng, tier) + gen_shared(rng, tier) + gen_mapped(rng, tier) + gen_flat(rng, tier, n) + gen_nested(rng, tier, 60 if tier == "quick" else 500)
+    return out + gen_deep(rng, tier, 50 if tier == "quick" else 500)
 
 
 # ------------------------------------------------------------------ documents and lifting
@@ -595,6 +733,11 @@ def inner_field_objs(f):
     if items is None:
         return []
     return list(items) if isinstance(items, (list, tuple)) else [items]
+
+
+def scratch_name(x):
+    n = getattr(x, "_name", None)
+    return n if isinstance(n, str) else None
 
 
 def share_inner_fields(cls, groups, ctx):
@@ -748,7 +891,7 @@ def run_impl(case):
         # the order construct_fields_map visits the fields, and the scratch `_name` every inner Field
         # instance carries right now (left there by earlier constructions; inputs of the Lean model)
         res["order"] = list(cls.get_all_fields_by_name())
-        res["scratch"] = [[n, [getattr(x, "_name", None) for x in inner_field_objs(getattr(cls, n))]]
+        res["scratch"] = [[n, [scratch_name(x) for x in inner_field_objs(getattr(cls, n))]]
                           for n in res["order"] if inner_field_objs(getattr(cls, n))]
     # the document as handed to the real code: every field under its mapped (document) key
     keymap = dict(mp["map"]) if mp else {}
@@ -863,6 +1006,9 @@ def line(case, impl):
             l["mapper"] = impl["mapper"]
         l["order"] = impl.get("order", [])
         l["scratch"] = impl.get("scratch", [])
+        # keep_undefined as deserialize_structure_internal receives it (Deserializer.deserialize passes
+        # None on for a class that allows additional properties)
+        l["keepUndefined"] = bool(case.get("entry") == "deserialize_structure" or not case["cls"].get("addl", True))
     if impl.get("msg") is not None:
         l["msg"] = impl["msg"]
         # oracle answers for `\w`: the non-ASCII characters of the message that str.isalnum() accepts
@@ -992,7 +1138,7 @@ def construct_correspondence(case, impl, model):
 
 def names_field(path, cls_name, name):
     """does the path text name the top-level field (optional class prefix, optional element suffix)"""
-    return re.fullmatch(r"(?:" + re.escape(cls_name) + r"\.)?" + re.escape(name) + r"(?:_\d+|_key|_value)?", path or "") is not None
+    return re.fullmatch(r"(?:" + re.escape(cls_name) + r"\.)?" + re.escape(name) + r"(?:_\d+|_key|_value)*", path or "") is not None
 
 
 def path_of_text(t):
@@ -1031,6 +1177,12 @@ def classify_lost(text, path):
     return "field-lost:other"
 
 
+def in_domain(mode, model):
+    """the statement's domain: flat classes; for the constructor also the path model's extended domain
+    (collections nested to any depth over scalars and class references)"""
+    return bool(model.get("flat") or (mode in ("construct", "deser") and model.get("path")))
+
+
 def oracle(case, impl, model):
     """the property statement executed on what the real code did; returns [(key, what)]"""
     fails = []
@@ -1045,7 +1197,7 @@ def oracle(case, impl, model):
         where += f" mapper={case['mapper']['mode']}"
     if raised is None:
         # an invalid input must be rejected (modelled, flat cases; the invalid set comes from Lean `validate`)
-        if mode in ("construct", "deser") and model.get("flat") and model.get("invalid") and "raised" in impl \
+        if mode in ("construct", "deser") and in_domain(mode, model) and model.get("invalid") and "raised" in impl \
                 and model.get("kind") != "bind":
             fails.append(("invalid-input-accepted",
                           f"supplied fields {model['invalid']} are invalid but nothing was raised [{where}]"))
@@ -1073,7 +1225,7 @@ def oracle(case, impl, model):
                 fails.append(("wrong-field:document-key",
                               f"the message path is the document key, not the field (mapper {case['mapper']}): {t!r} [{where}]"))
                 break
-    if mode == "nested" or not model.get("flat"):
+    if mode == "nested" or not in_domain(mode, model):
         return fails
     invalid = model["invalid"]
     if not invalid:
@@ -1130,6 +1282,10 @@ def oracle(case, impl, model):
         kind = aligned[idx]["kind"]
         if kind == "foreign":
             return "no-path:unhashable:deser-set"
+        if kind == "nested":
+            # a dict document of a top-level class-reference field: the nested structure's error is
+            # passed through without the outer field's name
+            return "no-path:nested-structure:deser-classref"
         if kind == "inner":
             p = path_of_text(bare)
             if p is None or p == "None":
